@@ -23,6 +23,7 @@ func (e *Engine) callOperands(st *State, fr *Frame, c *ssa.CallCommon) (callee V
 }
 
 func simpleName(n string) string {
+	n = strings.TrimPrefix(n, "dyn:")
 	if i := strings.LastIndexAny(n, ")."); i >= 0 {
 		n = n[i+1:]
 	}
@@ -155,8 +156,40 @@ func (e *Engine) siteEvent(st *State, fr *Frame, sel, name string, vars map[stri
 			st.ghost[r.Var] = v.term()
 		case "inc":
 			e.bump(st, r.Var)
+		case "update":
+			e.applyUpdate(st, fr, env, r.Upd)
 		}
 	}
+}
+
+func (e *Engine) applyUpdate(st *State, fr *Frame, env *Env, u *GhostUpdate) {
+	d, ok := e.spec.GhostMaps[u.Map]
+	if !ok {
+		e.specError(fr, "update of unknown ghost map %s", u.Map)
+		return
+	}
+	k, err := e.Eval(env, u.Key)
+	if err != nil {
+		e.specError(fr, "update %s: %v", u.Map, err)
+		return
+	}
+	v, err := e.Eval(env, u.Val)
+	if err != nil {
+		e.specError(fr, "update %s: %v", u.Map, err)
+		return
+	}
+	so := arraySort(d.Args[0], d.Res)
+	arr := e.heapArr(st, "gm!"+d.Name, so)
+	nv := mkStore(arr, k.term(), v.term())
+	if u.When != nil {
+		c, err := e.EvalBool(env, u.When)
+		if err != nil {
+			e.specError(fr, "update %s: %v", u.Map, err)
+			return
+		}
+		nv = mkIte(c, nv, arr)
+	}
+	e.setHeapArr(st, "gm!"+d.Name, so, nv)
 }
 
 func (e *Engine) entryOf(fr *Frame) *State {
@@ -241,6 +274,11 @@ func (e *Engine) checkAccess(st *State, fr *Frame, loc *Loc, write bool, pos tok
 	if cls == "" {
 		return
 	}
+	for _, o := range e.freshObjs {
+		if o == loc.Obj {
+			return // object allocated by this activation: not yet shared, and not part of the caller-visible frame
+		}
+	}
 	if write {
 		e.checkFrame(st, fr, cls, pos)
 	}
@@ -265,6 +303,9 @@ func (e *Engine) checkAccess(st *State, fr *Frame, loc *Loc, write bool, pos tok
 }
 
 func (e *Engine) checkFrame(st *State, fr *Frame, cls string, pos token.Pos) {
+	if strings.HasPrefix(cls, "var:") {
+		return
+	}
 	uc := e.unitContract(fr)
 	if uc == nil || !uc.HasMod {
 		return
@@ -378,6 +419,27 @@ func (e *Engine) applyCall(st *State, fr *Frame, instr ssa.Instruction, c *ssa.C
 			e.safety(st, "nil", "call:"+e.describe(c.Value), mkNot(mkEq(callee.term(), "nil")), pos)
 		}
 	}
+	{
+		k0 := k
+		k = func(s2 *State, res Val, panicked bool) {
+			if !panicked {
+				rv := map[string]Val{"$result": res, "$callee": callee}
+				for i, a := range allArgs {
+					rv[fmt.Sprintf("$%d", i)] = a
+				}
+				if tt, ok := res.T.(*types.Tuple); ok {
+					for i := 0; i < tt.Len(); i++ {
+						off, n := e.tupleOffset(tt, i)
+						rv[fmt.Sprintf("$result%d", i)] = res.sub(tt.At(i).Type(), off, n)
+					}
+				} else {
+					rv["$result0"] = res
+				}
+				e.siteEvent(s2, fr, "ret", name, rv, pos)
+			}
+			k0(s2, res, panicked)
+		}
+	}
 	e.bump(st, "calls:"+simpleName(name))
 	if sn := simpleName(name); "calls:"+sn != "calls:"+name {
 		e.bump(st, "calls:"+name)
@@ -390,7 +452,16 @@ func (e *Engine) applyCall(st *State, fr *Frame, instr ssa.Instruction, c *ssa.C
 		e.applyContract(st, fr, ct, name, fn, c.Signature(), allArgs, resT, pos, k)
 		return
 	}
-	// function-type contract attached to the parameter/field the callee value came from
+	// function-type contract: the callee is an unknown value of a named func type that has a declared contract
+	if fn == nil && !c.IsInvoke() {
+		if nt, ok := types.Unalias(c.Value.Type()).(*types.Named); ok {
+			if ct, ok := e.spec.FuncTypes[typeKey(nt)]; ok {
+				e.extUsed["functype "+typeKey(nt)]++
+				e.applyContract(st, fr, ct, name, nil, c.Signature(), allArgs, resT, pos, k)
+				return
+			}
+		}
+	}
 	if fn != nil && len(fn.Blocks) > 0 && e.canInline(fr, fn) {
 		e.inlined[shortName(fn.String())]++
 		var bind []Val
@@ -501,6 +572,10 @@ func (e *Engine) havocAll(st *State) {
 	sort.Strings(names)
 	for _, n := range names {
 		if strings.HasPrefix(n, "rangevisited") {
+			continue
+		}
+		if strings.HasPrefix(n, "G!") && !e.globalMutable(n) {
+			// package-level variables that no function other than an initialiser stores to (scanned every run)
 			continue
 		}
 		e.havocHeapArr(st, n)
@@ -685,6 +760,10 @@ func (e *Engine) applyContract(st *State, fr *Frame, ct *Contract, name string, 
 		}
 	} else {
 		res = e.freshVal(st, resT, "ret_"+simpleName(name))
+	}
+	for _, u := range ct.Updates {
+		env := &Env{e: e, st: st, old: pre, names: names, site: site, result: &res, pkg: e.pkgOfContract(ct, fn)}
+		e.applyUpdate(st, fr, env, u)
 	}
 	if ct.MayPanic {
 		sp := st.clone()
@@ -1397,4 +1476,31 @@ func (e *Engine) modsOf(head *ssa.BasicBlock) *modSet {
 	}
 	e.modCache[head] = ms
 	return ms
+}
+
+// globalMutable reports whether the heap array of a package-level variable may change after initialisation.
+func (e *Engine) globalMutable(arr string) bool {
+	if e.mutGlobals == nil {
+		e.mutGlobals = map[string]bool{}
+		for _, fn := range e.fns {
+			if fn.Name() == "init" || strings.HasPrefix(fn.Name(), "init#") || fn.Synthetic != "" && strings.Contains(fn.Synthetic, "initializer") {
+				continue
+			}
+			for _, b := range fn.Blocks {
+				for _, ins := range b.Instrs {
+					if st, ok := ins.(*ssa.Store); ok {
+						if g, ok := addrRoot(st.Addr).(*ssa.Global); ok {
+							e.mutGlobals[sanitize("G!"+shortPkg(g.Pkg.Pkg.Path())+"."+g.Name())] = true
+						}
+					}
+				}
+			}
+		}
+	}
+	for g := range e.mutGlobals {
+		if strings.HasPrefix(arr, g+"!") {
+			return true
+		}
+	}
+	return false
 }
